@@ -474,14 +474,14 @@ fn jump_after_large_buffer(ctx: &Ctx, rep: &mut Report) {
 /// Size1 / Size2 options announce a size; they must not make the handler reserve or accept more.
 fn size_options(ctx: &Ctx, rep: &mut Report) {
     let b1s = [Blk::None, Blk::Val(0, true, 6), Blk::Val(1, true, 6), Blk::Val(0, false, 6), Blk::Val(3, false, 2)];
-    let sizes: [Option<u32>; 6] = [None, Some(0), Some(1000), Some(8 << 20), Some(u32::MAX), Some(17_000)];
+    let sizes: [Option<u32>; 6] = [None, Some(0), Some(1000), Some(8 << 20), Some(64 << 20), Some(17_000)]; // (no larger: a broken tree must not exhaust the machine)
     let budgets = [64usize, 1152, 5000];
     let radices = [b1s.len() as u64, sizes.len() as u64, sizes.len() as u64, budgets.len() as u64, 2, 2];
     let n = product(&radices);
     ctx.family(
         rep,
         "size-options",
-        "PUT with Block1 {none, 0/more/1024, 1/more/1024, 0/last/1024, 3/last/64} x Size1 {none,0,1000,17000,8 MiB,2^32-1} x Size2 {same} x budget {64,1152,5000} x payload {16,1024}, as a first request and after a first block: buffer growth stays bounded",
+        "PUT with Block1 {none, 0/more/1024, 1/more/1024, 0/last/1024, 3/last/64} x Size1 {none,0,1000,17000,8 MiB,64 MiB} x Size2 {same} x budget {64,1152,5000} x payload {16,1024}, as a first request and after a first block: buffer growth stays bounded",
         n,
         true,
         |i, rep| {
